@@ -8,9 +8,13 @@
     state after every operation.
  3. B3: random long histories over 4 names recorded from the real table, validated by TLC against
     SymTabTrace (M's actions consuming the logged events).
+ 4. B3 on real analyses: the operations the semantic analysis performs on corpus / mutated / generated
+    programs (arbitrary names and types, recorded inside SymbolTable) validated by TLC against
+    AnalyzerSymTrace (see checks/symtrace.py).
 """
 import json, os, sys
 sys.path.insert(0, os.path.join(os.path.dirname(os.path.abspath(__file__)), "..", "tools"))
+sys.path.insert(0, os.path.dirname(os.path.abspath(__file__)))
 from vlib import *
 
 
@@ -131,6 +135,18 @@ def main():
     with open(tp) as fh:
         evs = [json.loads(next(fh)) for _ in range(6)]
     c.sample({"recorded_events": evs})
+
+    # ---- 4. the histories the REAL semantic analysis produces (arbitrary names and types), validated by TLC
+    import symtrace
+    summ, arej, atr = symtrace.record_and_validate(c)
+    if arej:
+        if arej["ev"].get("ev") in ("bind", "bindfail", "lookup", "enter"):
+            c.report({"kind": "analysis_trace", "what": "a symbol-table answer recorded during a real analysis is not the stack-of-maps answer (AnalyzerSymTrace rejects it)",
+                      "record": arej["ev"], "state": arej["state"], "text": arej["text"]})
+        else:
+            c.notes.append("AnalyzerSymTrace rejected a scope-discipline record (C03's concern, reported there): " + json.dumps(arej["ev"])[:200])
+    c.cov["analysis_traces"] = {"programs": summ["analysed"], "records_validated": (atr.distinct - 1) if atr.ok else 0}
+    c.cov["traces_validated_against_impl"] += summ["analysed"]
     c.finish()
 
 
